@@ -9,6 +9,8 @@ from harness import common as C
 from harness import fw
 from harness import c06_gen as G
 from harness import c06_sections as S
+from harness import progen
+from harness import stmt_wire as SW
 
 META = {
     "id": "C06",
@@ -460,6 +462,100 @@ def part_scripts(ctx, dist, samples):
     return n_eval, len(distinct), consts
 
 
+
+# ------------------------------------------------------------------ F. user variables: the scoping model vs g++
+SCOPE_FEATURES = [(), ("tuple",), ("branch_first",), ("loop_first",), ("tuple", "branch_first", "loop_first"), ("float", "str", "tuple", "branch_first")]
+
+
+def scope_templates(rng):
+    """boundary programs for the scoping model (progen statement trees): tuple assignments that are all-new / mixed / all-old
+    at every level, names first bound in branches and loops (promotion), for variables re-used after their loop"""
+    C1 = "analog_read(0) > 3"
+    out = []
+    for a, b in (("a", "b"), ("v1", "v2")):
+        k = str(rng.choice([2, 3, 7]))
+        out += [
+            {"pre": [("assign", a, "1"), ("tuple", [a, b], [k, "3"])], "main": [("assign", b, f"{b} + 1"), ("write", b)]},
+            {"pre": [("assign", a, "1"), ("tuple", [a, b], [k, "3"])], "main": [("write", a), ("sleep", "5")]},
+            {"pre": [("assign", a, "1"), ("tuple", [b, a], [k, "3"]), ("write", b)], "main": None},
+            {"pre": [("tuple", [a, b], ["1", k])], "main": [("swap", a, b), ("write", a)]},
+            {"pre": [("tuple", [a, b], ["1", k]), ("tuple", [a, b], [b, a])], "main": [("assign", a, f"{a} + {b}"), ("write", a)]},
+            {"pre": [], "main": [("tuple", [a, b], ["1", k]), ("assign", a, b), ("write", a)]},
+            {"pre": [("if", [(C1, [("tuple", [a, b], ["1", k])])], [])], "main": [("assign", a, b), ("write", a)]},
+            {"pre": [("assign", "n", "2"), ("while", "n > 0", [("tuple", [a, b], ["n", k]), ("aug", "n", "-", "1")])], "main": [("assign", b, f"{a} + 1"), ("write", b)]},
+            {"pre": [("for", "i", "3", [("sleep", "1")]), ("aug", "i", "+", "1")], "main": [("sleep", "5")]},
+            {"pre": [("for", "i", "3", [("sleep", "1")]), ("assign", "i", k)], "main": [("write", "i")]},
+            {"pre": [("for", "i", "3", [("assign", a, "i")])], "main": [("assign", a, f"{a} + 1"), ("write", a)]},
+            {"pre": [("assign", "i", "9"), ("for", "i", "3", [("assign", a, "i"), ("aug", "i", "+", "1")]), ("aug", "i", "+", "1")], "main": [("write", "i")]},
+            {"pre": [("if", [(C1, [("assign", a, "1")])], [("assign", a, "2")]), ("aug", a, "+", "1")], "main": [("assign", a, f"{a} + 1"), ("write", a)]},
+            {"pre": [], "main": [("if", [(C1, [("assign", a, "1")])], []), ("assign", a, "2"), ("aug", a, "+", k), ("write", a)]},
+            {"pre": [], "main": [("for", "j", "2", [("assign", b, "j"), ("if", [(C1, [("assign", a, b)])], [])]), ("assign", b, f"{b} + 1"), ("write", b)]},
+            {"pre": [], "main": [("if", [(C1, [("for", "j", "2", [("assign", a, "j")])]), ("not (" + C1 + ")", [("assign", a, k)])], [("assign", b, "0")]), ("assign", a, "4"), ("assign", b, a)]},
+            {"pre": [("if", [(C1, [("while", C1, [("assign", a, k), ("break",)])])], [])], "main": [("assign", a, f"{a} + 1")]},
+        ]
+    return out
+
+
+def part_scope(ctx, dist):
+    """Lang/Scope.v on the IR of Lang/Transl.v (the model the theorem C06_transl_scoped_partial is about) against g++ on the
+    real emitted text of the same program.  Transl itself is tied to parser.py by unit C01_stmt (IR equality)."""
+    if not ctx.exe:
+        return 0
+    rng = ctx.rng
+    n = 600 if ctx.tier == "thorough" else 90
+    cases = []
+    progs = scope_templates(rng)
+    for i in range(n):
+        g = progen.Gen(rng, SCOPE_FEATURES[i % len(SCOPE_FEATURES)])
+        progs.append(g.program(with_main=rng.random() < 0.85))
+    for p in progs:
+        if p.get("funcs"):
+            continue
+        an = SW.Annotator()
+        pre = an.stmts(p["pre"])
+        main = an.stmts(p["main"]) if p["main"] is not None else None
+        if an.ok:
+            cases.append((p, an, pre, main))
+    if not cases:
+        return 0
+    impl_ir = C.run_impl("c01_stmt_impl.py", {"cases": [{"src": progen.render(p), "exprs": an.exprs} for p, an, _, _ in cases]})
+    wires = [[5, SW.wire_stmts(pre, r["consts"]), [] if main is None else [SW.wire_stmts(main, r["consts"])]]
+             for (p, an, pre, main), r in zip(cases, impl_ir["results"])]
+    outs = ctx.model(wires)
+    srcs = [progen.render(p) for p, _, _, _ in cases]
+    _, tr = transpile(srcs)
+    idx = [k for k, r in enumerate(tr) if r["ok"]]
+    comp = dict(zip(idx, fw.run_sketches([{"cpp": tr[k]["cpp"], "compile_only": True} for k in idx])))
+    n_eval = 0
+    for k, (o, r) in enumerate(zip(outs, tr)):
+        src = srcs[k][len(progen.HEADER):]
+        if o[0] != 0:
+            ctx.disagree("scope model could not decode the program", src, o, None)
+            continue
+        if o[1] == 0:
+            dist["scope:model-rejects"] += 1
+            continue
+        _, _, setup_ok, loop_ok, all_ok, no_local = o
+        n_eval += 1
+        dist[f"scope:setup_ok={setup_ok},loop_ok={loop_ok},with_aug={all_ok},setup_has_no_local={no_local}"] += 1
+        # the theorem, executed on the extracted model
+        if setup_ok != 1 or (no_local == 1 and loop_ok != 1):
+            ctx.disagree("extracted model contradicts theorem C06_transl_scoped_partial (extraction or wire bug)", src, o, None)
+        c = comp.get(k)
+        if c is None:
+            dist["scope:real-parser-rejects"] += 1
+            continue
+        if (loop_ok == 0 or all_ok == 0) and c["compiled"]:
+            ctx.disagree("scope model: an assignment targets a name that is not visible in C++, but g++ accepts the real sketch", src, o, "compiles")
+        if not c["compiled"]:
+            dist["scope:g++-fails:" + err_key(c["compile_log"])] += 1
+            if loop_ok == 0 or all_ok == 0:
+                if "was not declared in this scope" not in c["compile_log"]:
+                    ctx.disagree("scope model predicts an undeclared assignment target; g++ fails for another reason", src, o, c["compile_log"][-400:])
+        else:
+            dist["scope:compiled"] += 1
+    return n_eval
+
 # ------------------------------------------------------------------ E. listed findings
 def replay_finding(ctx, f, consts, dist):
     """-> True iff the witness still violates the property on the real code"""
@@ -496,6 +592,7 @@ def run(ctx: C.Ctx):
     n2 = part_lexer(ctx, dist)
     n3 = part_literals(ctx, dist, strings)
     n4, nt4, consts = part_scripts(ctx, dist, samples)
+    n5 = part_scope(ctx, dist)
 
     for f in local_findings(ctx):
         if f.get("kind") == "fixed":
@@ -508,7 +605,7 @@ def run(ctx: C.Ctx):
             ctx.disagree("listed finding's witness is inside the executable guard", {"script": w}, "outside", "inside")
 
     ctx.coverage.update({
-        "evaluations": n1 + n2 + n3 + n4,
+        "evaluations": n1 + n2 + n3 + n4 + n5,
         "distinct_nontrivial": nt1 + nt4,
         "rule": "A: escape on special strings + all 1/2-character strings over a 12-symbol boundary alphabet + all 3-character strings over 5 symbols + seeded printable strings (ASCII incl. quote/backslash/?, Unicode) + strings with control characters (model vs _escape_string_literal; the real output lexed by the model lexer; the three escape call sites of _to_c_expr). "
                 "B: C++ literal bodies built from plain characters, simple/octal/hex escapes, trigraph-like sequences, line splices, non-ASCII: model lexer vs the bytes g++ stores. "
